@@ -159,3 +159,34 @@ def align_unions(fam, t, live):
     except Exception:
         return t
     return t
+
+
+_BASIC_KINDS = ("int", "float", "bool", "str", "none")
+
+
+def earlier_member(ref, t, v):
+    s = tast.strip(t)
+    if s[0] == "tv":
+        df = ref.fam.defs[s[1]]
+        if df.get("constraints"):
+            s = ("union", tuple(df["constraints"]))
+    if s[0] == "union" or (s[0] == "opt" and tast.strip(s[1])[0] == "union"):
+        ms = ref.union_members(s)
+        owner = ref.member_of(ms, v)
+        if owner is None or tast.strip(owner)[0] in _BASIC_KINDS:
+            # basic scalar members are matched by exact class before anything else: never explained by F20
+            return False
+        before = ms[:ms.index(owner)]
+        return any(tast.strip(m)[0] not in _BASIC_KINDS for m in before)
+    if s[0] == "opt":
+        return v is not None and earlier_member(ref, s[1], v)
+    if s[0] == "seq":
+        return any(earlier_member(ref, s[2], x) for x in v)
+    if s[0] == "map":
+        return any(earlier_member(ref, s[3], x) for x in v.values())
+    if s[0] == "vtuple":
+        return any(earlier_member(ref, s[2], x) for x in v)
+    if s[0] == "tuple":
+        return any(earlier_member(ref, m, x) for m, x in zip(s[2], v))
+    return False
+
